@@ -301,11 +301,25 @@ pub fn det_case(
     let mut failing = by_tasks[1].clone();
     let mut fr = rng.sub("failing");
     let pick = if subject.api == crate::exec::Api::Preprocess && fr.chance(3, 4) {
-        4
+        if fr.chance(1, 2) { 4 } else { 6 }
     } else {
-        fr.below(6)
+        fr.below(7)
     };
     match pick {
+        6 => {
+            // preprocessing that fails right after a few ## pastes (state left half-way)
+            let mut fs = snippet_fs(
+                "#define CAT(a,b) a##b\nCAT(x,1) CAT(y,2) CAT(z,3) ;\n#include \"missing_after_pastes.h\"\n",
+            );
+            fs.policy = crate::simfs::Policy::ParentRelative;
+            fss.push(fs);
+            let mut t = TaskSpec::compile(fss.len() - 1, "test.rssl", subject.target);
+            t.api = subject.api;
+            t.no_pipeline = true;
+            t.buffer_address = subject.buffer_address;
+            t.subject = false;
+            failing = t;
+        }
         0 => failing.faults = vec![Fault::new(FaultKind::NotFound, Sel::LoadIndex(0))],
         4 | 5 => {
             // a generated include graph with ## pastes whose preprocessing fails half-way
